@@ -55,6 +55,8 @@ class EvalCtx(object):
         #     print('^^^' + '  '*self.level, node_type, node)
 
         if node_type is AstName:
+            if not hasattr(node, 'flow'):  # a name the analysis never reached
+                return None
             names = node.flow.names_at(np(node))
             name = names.get(node.id)
             if name:
